@@ -17,7 +17,8 @@ EVID_DIR = os.path.join(VERIF, "evidence")
 REPLAY_DIR = os.path.join(EVID_DIR, "replay")
 LOCK = os.path.join(VERIF, ".lock")
 ALLOWED_AXIOMS = {"propext", "Classical.choice", "Quot.sound"}
-FORBIDDEN = re.compile(r"\bsorry\b|\badmit\b|^\s*axiom\s|native_decide|bv_decide|implemented_by|\bunsafe\s|maxHeartbeats\s+0\b|sorryAx")
+FORBIDDEN = re.compile(r"\bsorry\b|\badmit\b|^\s*(private\s+|protected\s+)?axiom\s|native_decide|bv_decide|implemented_by|\bunsafe\s|maxHeartbeats\s+0\b|sorryAx"
+                       r"|^\s*(private\s+|protected\s+)?opaque\s|\bpartial\s+def\b|@\[extern|skipKernelTC|\bextern\s+\"")
 
 TRUSTED_BASE = [
     "Lean 4.33.0 kernel (thorough tier: re-checked by leanchecker)",
@@ -82,7 +83,10 @@ def grep_forbidden():
                 body = strip_comments(open(path).read())
                 # string literals may mention the words (e.g. in messages); drop them
                 body = re.sub(r'"(?:[^"\\]|\\.)*"', '""', body)
+                is_driver = os.path.dirname(path) == LEAN_DIR      # Driver.lean / HeapDriver.lean: IO loops outside the library; no theorem imports them
                 for ln, line in enumerate(body.split("\n"), 1):
+                    if is_driver and re.search(r"\bpartial\s+def\b", line) and not re.search(r"sorry|axiom|native_decide", line):
+                        continue
                     if FORBIDDEN.search(line):
                         hits.append(f"{os.path.relpath(path, VERIF)}:{ln}: {line.strip()[:120]}")
     return hits
@@ -144,10 +148,15 @@ def audit_axioms(modules, theorems):
         modules = [modules]
     path = os.path.join(d, f"Audit_{modules[0].replace('.', '_')}_{os.getpid()}.lean")
     with open(path, "w") as f:
+        f.write("import Lean\n")
         for module in modules:
             f.write(f"import {module}\n")
+        # a cited name must be a THEOREM: `#print axioms` answers for definitions too (an unproved `def …_statement : Prop` would pass)
+        f.write("open Lean Elab Command in\nelab \"#kind \" id:ident : command => do\n  let n := id.getId\n"
+                "  match (← getEnv).find? n with\n  | some (.thmInfo _) => logInfo m!\"KIND {n} theorem\"\n"
+                "  | some _ => logInfo m!\"KIND {n} not-a-theorem\"\n  | none => logInfo m!\"KIND {n} missing\"\n")
         for t in theorems:
-            f.write(f"#print axioms {t}\n")
+            f.write(f"#print axioms {t}\n#kind {t}\n")
     p = subprocess.run(["lake", "env", "lean", path], cwd=LEAN_DIR, capture_output=True, text=True)
     os.unlink(path)
     out = p.stdout + p.stderr
@@ -162,12 +171,21 @@ def audit_axioms(modules, theorems):
             res[t] = {"ok": True, "axioms": []}
         else:
             res[t] = {"ok": False, "axioms": [], "error": "theorem not found or audit failed: " + flat[-300:]}
+            continue
+        k = re.search(r"KIND " + re.escape(t) + r" (theorem|not-a-theorem|missing)(?![\w'])", flat)
+        if not k or k.group(1) != "theorem":
+            res[t] = {"ok": False, "axioms": res[t]["axioms"], "error": f"{t} is not a theorem ({k.group(1) if k else 'kind unknown'}): a definition proves nothing"}
+        elif t.endswith("_statement"):
+            res[t] = {"ok": False, "axioms": res[t]["axioms"], "error": f"{t}: a name ending in _statement is a statement, not its proof"}
     return res
 
 
 def leanchecker(modules):
-    p = subprocess.run(["lake", "env", "leanchecker"] + modules, cwd=LEAN_DIR, capture_output=True, text=True)
-    return p.returncode == 0, (p.stdout + p.stderr)[-2000:]
+    """independent replay of the compiled declarations of EVERY SCoda module the given modules import (models, generated files, lemma
+    files and unlisted property files included), not only of the listed ones; returns (ok, output tail, modules checked)"""
+    mods = sorted(import_closure(modules, extra_files=()))
+    p = subprocess.run(["lake", "env", "leanchecker"] + mods, cwd=LEAN_DIR, capture_output=True, text=True)
+    return p.returncode == 0, (p.stdout + p.stderr)[-2000:], mods
 
 
 # ----------------------------------------------------------------------------- shrinking
@@ -469,11 +487,31 @@ def write_replay(prop, kind, payload):
     return path
 
 
-def write_evidence(prop, tier, seed, level, coverage, wall, violations, assumptions):
-    os.makedirs(EVID_DIR, exist_ok=True)
+def repo_provenance(no_build=False):
+    """which source tree this run judged: path, commit, whether the work tree differs from the commit, and whether Lean was skipped"""
+    repo = os.environ.get("SCODA_REPO", "/repo")
+
+    def git(*a):
+        try:
+            return subprocess.run(["git", "-C", repo] + list(a), capture_output=True, text=True, timeout=30).stdout.strip()
+        except Exception:
+            return ""
+    return {"repo_path": repo, "repo_head": git("rev-parse", "HEAD"), "repo_dirty": bool(git("status", "--porcelain", "--", "scoda")),
+            "no_build": bool(no_build)}
+
+
+def write_evidence(prop, tier, seed, level, coverage, wall, violations, assumptions, no_build=False):
+    """evidence/<id>.json describes a complete run (Lean build and audit included) against /repo.  Development runs — another source
+    tree through SCODA_REPO (seeded changes, reverted fixes) or `--no-build` — are written to evidence/scratch/ instead, so that the
+    committed evidence is never the record of a mutant or of a run without its proof obligations (audit round 3, M2)."""
+    prov = repo_provenance(no_build)
+    coverage = dict(coverage, provenance=prov)
+    official = os.path.realpath(prov["repo_path"]) == os.path.realpath("/repo") and not no_build
+    d = EVID_DIR if official else os.path.join(EVID_DIR, "scratch")
+    os.makedirs(d, exist_ok=True)
     ev = {"property_id": prop, "tier": tier, "seed": seed, "level": level, "coverage": coverage,
           "assumptions": assumptions, "wall_s": round(wall, 2), "violations": violations}
-    tmp = os.path.join(EVID_DIR, f".{prop}.{os.getpid()}.tmp")
+    tmp = os.path.join(d, f".{prop}.{os.getpid()}.tmp")
     with open(tmp, "w") as f:
         json.dump(ev, f, indent=1, default=str)
-    os.replace(tmp, os.path.join(EVID_DIR, f"{prop}.json"))
+    os.replace(tmp, os.path.join(d, f"{prop}.json"))
